@@ -275,7 +275,7 @@ class C14(core.Check):
                         'pos:zero-length@end': 2, 'pos:zero-length@start': 2, 'pos:zero-length@before-org-gap': 2,
                         'pos:zero-length@muted': 2, 'pos:zero-length@end-after-label': 2, 'outcome:success': 3,
                         'outcome:failure': 3, 'output-in-missing-directory': 3, 'long-run:directed': 20, 'odd-spacing:directed': 10, 'corpus-example': 2, 'window-options': 3,
-                        'planted:symbol-cycle': 3, 'no-image-asked-for': 3, 'page-local-target:page-0': 3, 'corruption:name-defined-in-an-uncompiled-branch-only': 3, 'symbol-cycle:use-before-it-closes': 3, 'symbol-cycle:first-from-cmdline': 3,
+                        'planted:symbol-cycle': 3, 'no-image-asked-for': 3, 'page-local-target:page-0': 3, 'corruption:name-defined-in-an-uncompiled-branch-only': 3, 'corruption:label-of-another-file-of-the-include-chain': 3, 'symbol-cycle:use-before-it-closes': 3, 'symbol-cycle:first-from-cmdline': 3,
                         'symbol-cycle:first-from-config': 3}
 
     def make(self, isa_files, isa_name, main, src, fmt, planted, tags, missing_dir=False, extra_argv=()):
@@ -381,6 +381,20 @@ class C14(core.Check):
                 yield self.make({fn: itext}, fn, 'p.asm', '\n'.join(Ld) + '\n', None, 'unresolvable-label',
                                 {'corruption:name-defined-in-an-uncompiled-branch-only', 'fmt:None', 'planted:unresolvable-label',
                                  'pos:' + ['first', 'middle', 'last'][[0, len(lines) // 2, len(lines)].index(at)]})
+        # a file label (leading "_") belongs to its file: in another file of the include chain the name is not defined
+        for k_, (main_x, incs_) in enumerate([
+                (['_c14_priv:', '.byte 1', '#include "c14a.asm"'], {'c14a.asm': 'jmp _c14_priv\n'}),
+                (['_c14_priv = 7', '#include "c14a.asm"'], {'c14a.asm': '.byte _c14_priv\n'}),
+                (['_c14_priv:', '.byte 1', '#include "c14a.asm"'], {'c14a.asm': 'nop\n#include "c14b.asm"\n', 'c14b.asm': '.2byte _c14_priv\n'}),
+                (['#include "c14a.asm"', 'jmp _c14_in'], {'c14a.asm': '_c14_in:\nnop\n'}),
+                (['#include "c14a.asm"', '_c14_late:', 'nop'], {'c14a.asm': 'ldi BYTE0(_c14_late)\n'}),
+                (['c14_glob:', '.c14_loc:', 'nop', '#include "c14a.asm"'], {'c14a.asm': 'jmp .c14_loc\n'})]):
+            for at in (0, len(lines)):
+                Lf = lines[:at] + main_x + lines[at:]
+                files_ = dict({fn: itext}, **incs_)
+                yield self.make(files_, fn, 'p.asm', '\n'.join(Lf) + '\n', None, 'unresolvable-label',
+                                {'corruption:label-of-another-file-of-the-include-chain', 'fmt:None', 'planted:unresolvable-label',
+                                 'pos:' + ('first' if at == 0 else 'last')})
         # a page-local target outside the instruction's page does not fit its field, wherever the two pages are
         for k_, (ia_, ta_) in enumerate([(0x0200, 0x0010), (0x0300, 0x00FF), (0x0100, 0x0000), (0x0200, 0x0300), (0x0210, 0x01FF),
                                          (0x4000, 0x0040), (0x0100, 0x4001)]):
